@@ -1051,3 +1051,102 @@ V("C41-silent-err-var","C41","internal/object/wire.go","""		f, err := iprotobuf.
 
 		switch num {
 		case protoobject.FieldObjectID:""",expect="silent")
+
+# ---- C44 (progress necessary conditions)
+GC="pkg/local_object_storage/shard/gc.go"
+V("C44-timer-not-rearmed","C44",GC,"""			gc.remover()
+			timer.Reset(gc.removerInterval)
+""","""			gc.remover()
+""",rule="C44.R1")
+V("C44-listener-stops-on-unknown-event","C44",GC,"""			if !ok {
+				continue
+			}
+""","""			if !ok {
+				return
+			}
+""",rule="C44.R1")
+V("C44-bin-loop-stops-on-error","C44",GC,"""			if err != nil {
+				s.log.Warn("can't delete objects", zap.Error(err))
+			}
+""","""			if err != nil {
+				s.log.Warn("can't delete objects", zap.Error(err))
+				return
+			}
+""",rule="C44.R2")
+V("C44-epoch-done-despite-batch","C44",GC,"""	if collected == 0 {
+		s.gc.processedEpoch.Store(epoch)
+	}
+""","""	s.gc.processedEpoch.Store(epoch)
+""",rule="C44.R3")
+V("C44-scan-error-drops-collected","C44",GC,"""	if err != nil {
+		log.Warn("iterate expired objects", zap.Error(err))
+	}
+	if collected == 0 {""","""	if err != nil {
+		log.Warn("iterate expired objects", zap.Error(err))
+		return
+	}
+	if collected == 0 {""",rule="C44.R4")
+V("C44-interrupt-is-error","C44","pkg/local_object_storage/metabase/iterators.go","""	if errors.Is(err, ErrInterruptIterator) {
+		err = nil
+	}
+""","",rule="C44.R3")
+V("C44-silent-refactor","C44",GC,"""			gc.remover()
+			timer.Reset(gc.removerInterval)
+""","""			gc.remover()
+			d := gc.removerInterval
+			timer.Reset(d)
+""",expect="silent")
+# ---- C24.R6 / C30.R6 sessions cache
+V("C30-onmiss-captures-verb","C30","pkg/services/object/acl/v2/service.go","""	sToken, err := b.sessionTokenCommonCheckCache.AuthenticateTokenV2(cacheKey, func() (sessionv2.Token, error) {
+		return b.decodeAndVerifySessionTokenV2Common(mV2, mb)
+	})""","""	sToken, err := b.sessionTokenCommonCheckCache.AuthenticateTokenV2(cacheKey, func() (sessionv2.Token, error) {
+		t, err := b.decodeAndVerifySessionTokenV2Common(mV2, mb)
+		if err == nil && !t.AssertVerb(reqVerb, reqCnr) {
+			err = errInvalidVerb
+		}
+		return t, err
+	})""",rule="C30.R6")
+V("C24-v1-authkey-dropped","C24","internal/crypto/object.go","""		if !sessionToken.AssertAuthKey((*neofsecdsa.PublicKey)(ecdsaPub)) { // same format for all ECDSA schemes
+			return errors.New("session token is not for object's signer")
+		}
+""","""		_ = neofsecdsa.PublicKey{}
+""",rule="C24.R6")
+V("C24-silent-authority-refactor","C24","internal/crypto/object.go","""			ok, err := sessionTokenV2.AssertAuthority(nodeUser, resolver)
+			if err != nil {
+				return fmt.Errorf("assert session v2 authority: %w", err)
+			}
+			if !ok { // same format for all ECDSA schemes
+				return errors.New("session v2 token is not for object's signer")
+			}
+""","""			issuedForSigner, aerr := sessionTokenV2.AssertAuthority(nodeUser, resolver)
+			switch {
+			case aerr != nil:
+				return fmt.Errorf("assert session v2 authority: %w", aerr)
+			case !issuedForSigner:
+				return errors.New("session v2 token is not for object's signer")
+			}
+""",expect="silent")
+V("C32-signed-size-skips-field","C32","pkg/services/control/service_neofs.pb.go","""	size += proto.BoolSize(3, x.IgnoreErrors)
+	return size
+}
+
+// StableMarshal marshals x in protobuf binary format with stable field order.
+//
+// If buffer length is less than x.StableSize(), new buffer is allocated.
+//
+// Returns any error encountered which did not allow writing the data completely.
+// Otherwise, returns the buffer in which the data is written.
+//
+// Structures with the same field values have the same binary format.
+func (x *DumpShardRequest_Body) StableMarshal""","""	return size
+}
+
+// StableMarshal marshals x in protobuf binary format with stable field order.
+//
+// If buffer length is less than x.StableSize(), new buffer is allocated.
+//
+// Returns any error encountered which did not allow writing the data completely.
+// Otherwise, returns the buffer in which the data is written.
+//
+// Structures with the same field values have the same binary format.
+func (x *DumpShardRequest_Body) StableMarshal""",rule="C32.R4")
